@@ -54,9 +54,9 @@ type Damage struct {
 
 // History shapes.
 const (
-	HOpenOpen      = iota // open (fail?) -> open again
-	HOpenCloseCloseOpen   // open -> close -> close -> open -> close
-	HOpenBolt             // open (fail?) -> plain bbolt.Open with timeout
+	HOpenOpen           = iota // open (fail?) -> open again
+	HOpenCloseCloseOpen        // open -> close -> close -> open -> close
+	HOpenBolt                  // open (fail?) -> plain bbolt.Open with timeout
 	nHist
 )
 
@@ -239,7 +239,7 @@ func released(path string) error {
 
 func tryOpen(path string, oc fix.OpenCfg) (*updog.Index, error) {
 	var idx *updog.Index
-	err, hung, slow := fix.Watchdog(30*time.Second, []string{"syscall.Flock+updog.OpenIndex", "bbolt.flock+updog.OpenIndex"}, func() error {
+	err, hung, slow := fix.Watchdog(30*time.Second, []string{"syscall.Flock+updog.OpenIndex", "bbolt.flock+updog.OpenIndex", "sync.(*RWMutex)+updog.OpenIndex", "sync.(*Mutex)+updog.OpenIndex", "sync.(*WaitGroup)+updog.OpenIndex"}, func() error {
 		var e error
 		idx, _, e = fix.Open(path, oc)
 		return e
@@ -248,7 +248,7 @@ func tryOpen(path string, oc fix.OpenCfg) (*updog.Index, error) {
 		panic("INFRA: OpenIndex slow but not provably stuck")
 	}
 	if hung != "" {
-		return nil, &fix.PanicError{Val: "OpenIndex hangs (deadlock on the file lock)", Stack: hung}
+		return nil, &fix.PanicError{Val: "OpenIndex does not return (goroutine parked in a lock wait that cannot end)", Stack: hung}
 	}
 	return idx, err
 }
